@@ -171,3 +171,31 @@ func VerifArrayRootHeader(a *Array) [3]uint64 {
 func VerifArrayMutableElementIndex(a *Array) map[ValueID]uint64 { return a.mutableElementIndex }
 func VerifArrayHasParentUpdater(a *Array) bool                  { return a.parentUpdater != nil }
 func VerifMapHasParentUpdater(m *OrderedMap) bool               { return m.parentUpdater != nil }
+
+// VerifArrayGetStorable returns element i as stored (without converting it to a value).
+func VerifArrayGetStorable(a *Array, i uint64) (Storable, error) { return a.root.Get(a.Storage, i) }
+
+// VerifArrayStorables returns all stored elements in order by walking the data slabs along their
+// sibling links, starting from the first data slab.
+func VerifArrayStorables(a *Array) ([]Storable, error) {
+	slab, err := firstArrayDataSlab(a.Storage, a.root)
+	if err != nil {
+		return nil, err
+	}
+	var out []Storable
+	for {
+		out = append(out, slab.elements...)
+		if slab.next == SlabIDUndefined {
+			return out, nil
+		}
+		next, err := getArraySlab(a.Storage, slab.next)
+		if err != nil {
+			return nil, err
+		}
+		ds, ok := next.(*ArrayDataSlab)
+		if !ok {
+			return nil, NewSlabDataErrorf("sibling link %s does not point to a data slab", slab.next)
+		}
+		slab = ds
+	}
+}
